@@ -153,6 +153,7 @@ type Mon struct {
 	broken  map[string]bool // state-invariant rules already violated in this history
 	only  map[string]bool // properties to judge (nil = all)
 	extra []func(sc *StepCtx) // scenario monitors hooked per step (C17, C19)
+	atFinish []func(r *Run)
 	histOps map[string]bool
 }
 
